@@ -122,10 +122,12 @@ Definition network_model (dflt : string) (tbl : list (string * method)) (form : 
            (N D : poly) (ts : list (rat K)) : res (option net) :=
   let f := if String.eqb form "default" then dflt else form in
   match assoc f tbl with None => Err | Some m => run_method m N D ts end.
-(* Network.transform: self.Z(s).network(form) *)
+(* Network.transform: self.Z(s).network(form); the impedance expression is in
+   lowest terms (sympy cancels), modelled by the self-certifying [pcancel] *)
+Definition Zrat_c (nt : net) : rat K := pcancel (fst (Zrat nt)) (snd (Zrat nt)).
 Definition transform_model (dflt : string) (tbl : list (string * method)) (nt : net) (form : string)
            (ts : list (rat K)) : res (option net) :=
-  network_model dflt tbl form (fst (Zrat nt)) (snd (Zrat nt)) ts.
+  network_model dflt tbl form (fst (Zrat_c nt)) (snd (Zrat_c nt)) ts.
 
 (* ---------------------------------------------------------------------------- *)
 Definition lmode (zstart : bool) (n : nat) : bool := if zstart then Nat.even n else Nat.odd n.
@@ -322,15 +324,15 @@ Proof. intros Hwf Hp N D ts nt x. unfold synth_foster. destruct (pzerob N || pze
   pose proof (foster_fold_sound fs Hwf Hp x Hx ts None 0 (Some nt) Hts) as F.
   assert (F0 : finv (f_src_inv fs) None 0 x) by reflexivity. specialize (F F0 H). cbn [finv] in F. specialize (F Hw).
   destruct (rsum_eval K ts x Hts) as [Hsd Hse]. fold (tsum ts x) in Hse.
-  specialize (Hc x). destruct (f_src_inv fs); cbn [fst snd] in Hc.
-  - assert (E : Zev nt x * peval (fst (rsum ts)) x = peval (snd (rsum ts)) x).
+  destruct (f_src_inv fs).
+  - specialize (Hc x). cbn [fst snd] in Hc. assert (E : Zev nt x * peval (fst (rsum ts)) x = peval (snd (rsum ts)) x).
     { transitivity (Zev nt x * (0 + tsum ts x) * peval (snd (rsum ts)) x); [rewrite <- Hse; unfold rat_eval; field; exact Hsd | rewrite F; ring]. }
     assert (E2 : Zev nt x * peval D x = peval N x).
     { apply (mul_cancel_x K (peval (snd (rsum ts)) x)); [exact Hsd|].
       transitivity (Zev nt x * (peval D x * peval (snd (rsum ts)) x)); [ring|]. rewrite <- Hc.
       transitivity (Zev nt x * peval (fst (rsum ts)) x * peval N x); [ring | rewrite E; ring]. }
     rewrite <- E2. field. exact HD.
-  - rewrite F. transitivity (tsum ts x); [ring|]. rewrite <- Hse. apply (req_eval K _ (N, D) x); [intros y; apply Hc | exact Hsd | exact HD]. Qed.
+  - rewrite F. transitivity (tsum ts x); [ring|]. rewrite <- Hse. apply (req_eval K _ (N, D) x); [exact Hc | exact Hsd | exact HD]. Qed.
 
 (* ---- dispatch ------------------------------------------------------------------ *)
 Theorem method_sound (m : method) : method_wf m -> forall N D ts nt x,
@@ -356,9 +358,10 @@ Theorem transform_preserves_Z dflt tbl : Forall (fun e => method_wf (snd e)) tbl
   forall (n0 : net) form ts nt x, transform_model dflt tbl n0 form ts = Ok (Some nt) -> x <> 0 -> Zwf n0 x ->
   Forall (fun f => peval (snd f) x <> 0) ts -> Zwf nt x -> Zev nt x = Zev n0 x.
 Proof. intros Ht n0 form ts nt x H Hx Hw0 Hts Hw. destruct (Zrat_eval K n0 x Hw0) as [Hd He].
-  rewrite He. apply (network_sound dflt tbl Ht form _ _ ts nt x H Hx Hd Hts Hw). Qed.
+  destruct (pcancel_sound K (fst (Zrat n0)) (snd (Zrat n0)) x Hd) as [Hd' He'].
+  rewrite He. unfold rat_eval. rewrite <- He'. apply (network_sound dflt tbl Ht form _ _ ts nt x H Hx Hd' Hts Hw). Qed.
 End Ladder.
 
 Arguments comb_run {K}. Arguments ladder_fold {K}. Arguments cf_fuel {K}. Arguments synth_cauer {K}.
 Arguments foster_fold {K}. Arguments synth_foster {K}. Arguments run_method {K}. Arguments method_wf {K}.
-Arguments network_model {K}. Arguments transform_model {K}. Arguments tsum {K}.
+Arguments network_model {K}. Arguments transform_model {K}. Arguments Zrat_c {K}. Arguments tsum {K}.
